@@ -37,8 +37,10 @@ def run(tier, cases=None, only_engines=None):
     ck = Check(PROP, tier, "model_checking")
     nprog = 320 if tier == "quick" else 6000
     if cases is None:
-        cases, r = progs.generate(nprog, seed=vlib.seed())
+        cases, r = progs.generate(nprog // 2, seed=vlib.seed())
         nstates = r.states
+        c1, r1 = progs.generate(nprog // 2, seed=vlib.seed() + 5, cfg="MIRProg_lean.cfg")      # lean profile (see MIRProg.tla)
+        cases += c1; nstates += r1.states
         if tier == "thorough":       # longer programs: more live values, deeper control flow
             c2, r2 = progs.generate(nprog // 3, seed=vlib.seed() + 17, cfg="MIRProg_big.cfg", depth=1400)
             cases += c2; nstates += r2.states
